@@ -169,7 +169,7 @@ def genConcat16 (seed : Nat) (maxLen : Nat) : Array String := Id.run do
               out := out.push s!"hex concat {a} {b}"
   return out
 
-def labelAlphabet : List Char := ['a', 'Z', '0', '5', '9', '+', '-', 'α', 'ρ', 'ν', 'é', Char.ofNat 0x1D711, ' ', 'x']
+def labelAlphabet : List Char := ['a', 'Z', '0', '5', '9', '+', '-', 'α', 'ρ', 'ν', 'é', Char.ofNat 0x1D711, ' ', 'x', '\'', '"', '\\']
 
 def stringsUpTo (alpha : List Char) : Nat → List (List Char)
   | 0 => [[]]
